@@ -14,6 +14,20 @@ CHECKS = {
          "the solver shows that --name=v and --name v store exactly v / exactly the strconv conversion, set Called, leave siblings alone, "
          "and that invalid numerals give an error with nil remaining; flags, increments and bare optional-value options likewise.",
          "argv of 1-3 tokens around the option under test; float texts restricted to decimal/special forms with <=20 digits and <=2 exponent digits (hex/underscore forms cut and counted); "),
+ "C02": ("Slice and map options with SYMBOLIC, unbounded (min,max), attached or detached first value and 0-2 (thorough 3) following tokens drawn symbolically from "
+         "{well-formed value, malformed value, --flag, -, --, command name}: the solver shows that exactly the tokens the statement says are consumed, "
+         "values are stored in order (map: text before the first '=' / everything after, last key wins), leftovers are interpreted normally, too few values fail; "
+         "definitions with min<1 or max<min are rejected at definition; int ranges a..a+d (d<=3) expand inclusively for all a.",
+         "one occurrence of the option, <=2/3 following tokens, int values are canonical numerals (numeral syntax is C01's subject), malformed values start with a letter outside every numeral syntax, range span <=3 with |a|<=2^62; "),
+ "C03": ("Two unconstrained raw tokens (any bytes, any length) over a program with a flag, a string option and a command, in all 18 combinations of "
+         "single-dash mode x unknown mode x require-order: on every path where Parse succeeds the solver shows remaining is an order-preserving sub-list of argv, "
+         "plain positionals and unknown long options (Pass/Warn) are retained wherever they stand relative to the command token, and the tail behind the first `--` is verbatim; "
+         "constructed shapes cover positionals/unknowns before and after a command and bundles of unknown letters.",
+         "argv of 2 raw tokens, bundles of <=2 letters, letters of 1-2 UTF-8 bytes (wider / invalid sequences are cut and counted); retention rules are necessary conditions only (DESIGN.md C03); "),
+ "C04": ("For 11 contexts before `--` (nothing, positional, flag, satisfied option, bare optional-value option, slice/map option with min reached and max not - detached and attached -, command) "
+         "and two UNCONSTRAINED tail tokens, in every mode combination, the solver shows Parse succeeds, remaining ends with exactly the tail, no option/Called state "
+         "or dispatch target changes because of the tail.",
+         "two tail tokens, one context token group before `--`; the exempted case (`--` as a still-missing mandatory value) is only checked for returning normally; "),
 }
 
 NOT_YET = "check not built yet in this session (work in progress; see DESIGN.md section 12)"
